@@ -561,6 +561,21 @@ class World:
 
             d['setUp'] = setUp
             d['tearDown'] = tearDown
+
+            # parametrised instances: several tests of one class and method
+            # (equal for unittest, which compares class and method name) that
+            # differ in a parameter shown by str() and id()
+            def __str__(self_):
+                base = unittest.TestCase.__str__(self_)
+                p = getattr(self_, '_verif_param', None)
+                return base if p is None else '%s [%s]' % (base, p)
+
+            def id_(self_):
+                base = unittest.TestCase.id(self_)
+                p = getattr(self_, '_verif_param', None)
+                return base if p is None else '%s[%s]' % (base, p)
+            d['__str__'] = __str__
+            d['id'] = id_
             for tid in cspec['tests']:
                 tspec = self.spec['tests'][tid]
                 mname = tspec.get('name', 'test_' + tid)
@@ -584,6 +599,8 @@ class World:
                 mname = tspec.get('name', 'test_' + tid)
                 t = cls(mname)
                 t._verif_id = tid
+                if tspec.get('param') is not None:
+                    t._verif_param = tspec['param']
                 if tspec.get('layer'):
                     t.layer = self.layers[tspec['layer']]
                 if 'level' in tspec:
